@@ -22,6 +22,17 @@
 //     error bound = G*(W+deg+2)*(eps1+rho) + floor with rho = N(1+|s|_1)/(2*scale/2^3.5) the worst-case
 //     rounding error of one rescaling in the canonical embedding, eps1 = N(B+1)/scale the fresh noise,
 //     W = sum |c_k| k (monomial, |x|<=1) or 4 sum |c_k| k^2 (Chebyshev), G = 4 / 16.
+//
+// Extension families (coverage audit; bgvx.go, ckksx.go, compx.go, plainx.go), same oracles and parameter rules:
+// signed / unreduced coefficients of the generic BGV constructors; vectors whose members differ in sparsity, parity
+// flags or Chebyshev interval (with the vectorised homomorphic change of basis); nil coefficients on the parity a flag
+// excludes (CKKS, as mod1 builds them); sparsely packed CKKS inputs; one PowerBasis shared by a sequence of
+// polynomials, lazily pre-generated powers, a literal PowerBasis sharing the caller's ciphertext, GenPower judged
+// directly; refusal through every entry point / polynomial type / scale and malformed arguments, with the operands
+// left intact; output metadata; comparison with a caller-supplied composite (Sign, Step, Step, Sign, Max, Min on one
+// evaluator, exact composite oracle, default output scale), inverse with one prime per rescaling, without bootstrapper,
+// with a caller-supplied sign composite, IntervalNormalization on its own, mod1 above / below LevelQ;
+// EvaluateModP, Clone, Depth of a constant, ChebyshevApproximation (exact on polynomials of degree <= Nodes).
 package c13
 
 import (
@@ -77,13 +88,52 @@ func cases(tier string, seed int64) []eng.Case {
 		out = append(out, eng.Case{ID: fmt.Sprintf("plain/%03d", i), Sig: "C13|bignum.Polynomial", Desc: map[string]int{"idx": i},
 			Run: func(c *eng.Ctx) { runPlain(c, ii, perPlain) }})
 	}
+	return append(out, extCases(r, tier)...)
+}
+
+// extCases: the families added by the coverage audit (bgvx.go, ckksx.go, compx.go, plainx.go). They are appended after the
+// original families and draw from their own sub-streams: ids and draws of the original cases are unchanged.
+func extCases(r *eng.Rand, tier string) []eng.Case {
+	var out []eng.Case
+	nB, nC, nX, nP, perP := 96, 120, 50, 4, 40
+	if tier == "thorough" {
+		nB, nC, nX, nP, perP = 600, 800, 320, 32, 100
+	}
+	for i := 0; i < nB; i++ {
+		cfg, ok := drawBGVX(r.Sub("bgvx", i), i, tier)
+		if !ok {
+			continue
+		}
+		cc := cfg
+		out = append(out, eng.Case{ID: fmt.Sprintf("bgvx/%03d/%s/logN%d/t%d/L%d/qb%d", i, cc.Kind, cc.LogN, cc.T, len(cc.Q)-1, cc.QBits), Sig: "C13|bgv/polynomial.Evaluator", Desc: cc,
+			Run: func(c *eng.Ctx) { runBGVX(c, cc) }})
+	}
+	for i := 0; i < nC; i++ {
+		cfg, ok := drawCKKSX(r.Sub("ckksx", i), i, tier)
+		if !ok {
+			continue
+		}
+		cc := cfg
+		out = append(out, eng.Case{ID: fmt.Sprintf("ckksx/%03d/%s/%s/logN%d/ls%d/L%d/d%d", i, cc.Kind, cc.Ring, cc.LogN, cc.LogScale, len(cc.Q)-1, cc.Depth), Sig: "C13|ckks/polynomial.Evaluator", Desc: cc,
+			Run: func(c *eng.Ctx) { runCKKSX(c, cc) }})
+	}
+	for i := 0; i < nX; i++ {
+		cc := drawCompX(r.Sub("compx", i), i, tier)
+		out = append(out, eng.Case{ID: fmt.Sprintf("compx/%03d/%s/%s/logN%d", i, cc.Kind, cc.Ring, cc.LogN), Sig: "C13|composite|" + cc.Kind, Desc: cc,
+			Run: func(c *eng.Ctx) { runCompX(c, cc) }})
+	}
+	for i := 0; i < nP; i++ {
+		ii := i
+		out = append(out, eng.Case{ID: fmt.Sprintf("plainx/%03d", i), Sig: "C13|bignum.Polynomial", Desc: map[string]int{"idx": i},
+			Run: func(c *eng.Ctx) { runPlainX(c, ii, perP) }})
+	}
 	return out
 }
 
 func init() {
 	eng.Register(&eng.Monitor{
 		ID: "C13", Level: "exploration",
-		Rule:  "cases = generated parameter sets (bgv: logN, t, prime sizes, levels; ckks: ring type, logN, scale, prime spread, secret weight, 1 or 2 primes per rescaling) + composite circuits + plaintext bignum tools; inside a polynomial case every degree 1..9, every 2^k-1/2^k/2^k+1 and random degrees up to the chain depth are evaluated with a drawn (coefficient shape, API variant, number of polynomials and slot mapping, lazy flag, input level in [min,max], input scale, target scale) and compared slot by slot with the exact reference, together with the level/scale contract; below-minimum levels must be refused. distinct key = (scheme, mode or ring+basis, degree, shape, API variant, #polynomials, lazy, level class min/mid/max, input-scale default or not, target = input or not, complex, change of basis, primes per rescaling); non-trivial = degree >= 3 (a baby-step/giant-step split or a non power-of-two power is involved) or a vector of >= 2 polynomials or a refusal / degree-0 / composite-circuit / plaintext-tool check of degree >= 3; trivial = single polynomial of degree <= 2.",
+		Rule:  "cases = generated parameter sets (bgv: logN, t, prime sizes, levels; ckks: ring type, logN, scale, prime spread, secret weight, 1 or 2 primes per rescaling) + composite circuits + plaintext bignum tools; inside a polynomial case every degree 1..9, every 2^k-1/2^k/2^k+1 and random degrees up to the chain depth are evaluated with a drawn (coefficient shape, API variant, number of polynomials and slot mapping, lazy flag, input level in [min,max], input scale, target scale) and compared slot by slot with the exact reference, together with the level/scale contract; below-minimum levels must be refused. distinct key = (scheme, mode or ring+basis, degree, shape, API variant, #polynomials, lazy, level class min/mid/max, input-scale default or not, target = input or not, complex, change of basis, primes per rescaling); non-trivial = degree >= 3 (a baby-step/giant-step split or a non power-of-two power is involved) or a vector of >= 2 polynomials or a refusal / degree-0 / composite-circuit / plaintext-tool check of degree >= 3; trivial = single polynomial of degree <= 2. Extension families (ids bgvx/, ckksx/, compx/, plainx/): per parameter set one of the kinds coeff | vecmix | pbseq | refuse (bgv), sparse | vecmix | pbseq | refuse (ckks), cmp-custom | gold-nobtp | normalize | inv45-* | mod1-low (composite); distinct key = (family, kind, scheme mode or ring+basis, degree, coefficient type / member shapes and flag mode / position in the shared-basis sequence and whether the basis held a non-relinearised power / entry point, level class, packing); every such evaluation, direct GenPower check of a power >= 3, refusal and malformed-argument check is non-trivial except single polynomials of degree <= 2.",
 		Cases: cases,
 		Assumptions: []string{
 			"reference arithmetic (math/big, 128-bit modular products of verif/harness/ref) is correct",
@@ -91,6 +141,10 @@ func init() {
 			"CKKS bound: first-order worst-case propagation (canonical-embedding norm N*|.|_inf, ternary secret of weight <= h, Gaussian bound B) with the stated slack factors; measured errors stay >= 9 bits below it (max_ckks_err_over_bound_permille)",
 			"composite circuits are judged on the domain and with the tolerance their doc comments state (sign/step: |x| >= 2^-29, 2^-20; max/min: 2^-19; inverse: relative 2^-20; mod1: the three in-tree parameterisations, 2^-20 against the documented scaled sine)",
 			"bignum.NewPolynomial built from float64 coefficients carries 53-bit coefficients: with two primes per rescaling the workload passes 256-bit coefficients and intervals",
+			"coefficient domain of the BGV constructors: any int64 / uint64, read modulo t the way bgv.Encoder reads values (negative int64 c = t - |c| mod t); nil coefficients only on the parity a flag excludes and only for CKKS (the only in-tree producer is mod1)",
+			"a PowerBasis may be shared by several evaluations and may hold powers generated with lazy = true (GenPower documents that non-relinearised operands are relinearised automatically); X^1 of a basis and the ciphertext it was built from are inputs and stay unchanged",
+			"comparison / inverse with a caller-supplied composite are judged against that composite evaluated in plain (error budget = worst-case stage noise x stage Lipschitz constants), not against the ideal sign; IntervalNormalization against its doc comment (ct*factor = normalised, |normalised| <= 1, 0 < factor <= 1)",
+			"sparse packing is combined with single polynomials only (a PolynomialVector on a sparsely packed input is refused with an error by the evaluator: the per-slot coefficient vector always has MaxSlots entries)",
 		},
 	})
 }
